@@ -24,7 +24,7 @@ variable {K : Type*} [Field K] {ι ν μ κ : Type*} [Fintype ι] [Fintype ν] [
 
 /-! ### what the QR-based solves deliver (given exact `Q`, `R` and exact triangular solves) -/
 
-/-- normal case (model.py:323, 343-344): `W = QR` with orthonormal columns of `Q`, and `x` solves
+/-- normal case (model.py:329, 349-350): `W = QR` with orthonormal columns of `Q`, and `x` solves
     the triangular system `R x = Qᵀ F`  ⇒  `x` satisfies the normal equations. -/
 theorem qr_normal_eqs [DecidableEq κ] {W Q : Matrix ι κ K} {R : Matrix κ κ K} {x : Matrix κ μ K}
     {F : Matrix ι μ K} (hW : W = Q * R) (hQ : Qᵀ * Q = 1) (hx : R * x = Qᵀ * F) :
@@ -34,7 +34,7 @@ theorem qr_normal_eqs [DecidableEq κ] {W Q : Matrix ι κ K} {R : Matrix κ κ 
     rw [Matrix.mul_sub, Matrix.mul_assoc Q R x, ← Matrix.mul_assoc Qᵀ Q, hQ, Matrix.one_mul, hx, sub_self]
   rw [Matrix.transpose_mul, Matrix.mul_assoc, h, Matrix.mul_zero]
 
-/-- growing case (model.py:326, 339-340): `Wᵀ = QR`, `Rᵀ Rb = F`, `x = Q Rb`  ⇒  `W x = F`
+/-- growing case (model.py:332, 345-346): `Wᵀ = QR`, `Rᵀ Rb = F`, `x = Q Rb`  ⇒  `W x = F`
     (the minimal-norm solution still satisfies every interpolation equation). -/
 theorem qr_growing [DecidableEq ι] {W : Matrix ι κ K} {Q : Matrix κ ι K} {R : Matrix ι ι K}
     {Rb : Matrix ι μ K} {F : Matrix ι μ K} (hW : Wᵀ = Q * R) (hQ : Qᵀ * Q = 1) (hRb : Rᵀ * Rb = F) :
@@ -289,7 +289,7 @@ theorem unscale_modelVal {scale : ν → K} (hs : ∀ j, scale j ≠ 0) (shift :
   ring
 
 /-- **unscale_jacobian** — if `c + J_s z` fits `r(shift + z∘scale)` at the scaled points `z_t`,
-    then `J_s / scale` (column-wise, solver.py:1164-1166) fits `r` at the user points
+    then `J_s / scale` (column-wise, solver.py:1170-1172) fits `r` at the user points
     `x_t = shift + z_t∘scale`. -/
 theorem unscale_jacobian {scale : ν → K} (hs : ∀ j, scale j ≠ 0) (shift : ν → K) (Z : Matrix ι ν K)
     (F : Matrix ι μ K) (c : μ → K) (J : Matrix μ ν K) (h : Interpolates Z F c J) :
